@@ -1,16 +1,28 @@
 #!/bin/sh
 # tools/mut.sh <property> <patch-or-'sed:file:expr'> : run one property check against a mutated scratch copy.
-# Exit status is the checker's (1 = mutation detected).
+# Exit status is the checker's (1 = mutation detected). Every mutant that applies is saved as a -p1 patch under
+# /verif/selftest/<property>/ (detected ones as <hash>.diff, missed ones as <hash>.missed) for the thorough-tier self-test.
 here="$(cd "$(dirname "$0")/.." && pwd)"
 prop="$1"; mut="$2"
 d="${MUTDIR:-/root/work}/mut.$$"
 "$here/tools/scratch.sh" "$d" || exit 3
 case "$mut" in
-  sed:*) f=$(echo "$mut" | cut -d: -f2); e=$(echo "$mut" | cut -d: -f3-); sed -i "$e" "$d/$f" ; (cd "$d" && diff -u /repo/"$f" "$f" | head -20) ;;
+  sed:*) f=$(echo "$mut" | cut -d: -f2); e=$(echo "$mut" | cut -d: -f3-); sed -i "$e" "$d/$f" ;;
   *) (cd "$d" && patch -p1 -s < "$mut") || { rm -rf "$d"; exit 3; } ;;
 esac
+tmpdiff="$d.diff"
+# build a -p1 patch of everything that differs from /repo (tracked files only)
+(cd /repo && git ls-files) | while read -r f; do
+  if ! cmp -s "/repo/$f" "$d/$f" 2>/dev/null; then diff -u "/repo/$f" "$d/$f" | sed -e "1s|^--- /repo/|--- a/|" -e "2s|^+++ $d/|+++ b/|"; fi
+done > "$tmpdiff"
+if [ ! -s "$tmpdiff" ]; then echo "mutation changed nothing"; rm -rf "$d" "$tmpdiff"; exit 3; fi
+head -30 "$tmpdiff"
 . "$here/env.sh"
 "${MUTVSA:-$here/bin/vsa}" -p "$prop" -repo "$d" -evidence none -findings "$here/known_findings.txt"
 rc=$?
-rm -rf "$d"
+h=$(md5sum < "$tmpdiff" | cut -c1-10)
+mkdir -p "$here/selftest/$prop"
+if [ $rc -eq 1 ]; then cp "$tmpdiff" "$here/selftest/$prop/$h.diff"; rm -f "$here/selftest/$prop/$h.missed"
+elif [ $rc -eq 0 ]; then cp "$tmpdiff" "$here/selftest/$prop/$h.missed"; fi
+rm -rf "$d" "$tmpdiff"
 exit $rc
